@@ -924,6 +924,18 @@ pub fn generate_reads(ctx: &mut Ctx, prop: &str) {
                         let _ = read_case(ctx, prop, &Case { fl, compressed, verify, frames, events: evs, wscript: vec![] });
                         VERIFY_TOGGLE.with(|t| t.set(false));
                     }
+                    // the gate looks at the InSimVer byte and at nothing else of the packet: the spare bytes around it, the version
+                    // and product texts may hold anything
+                    for v in [9usize, 8, 0, 255] {
+                        for (pos, val) in [(19usize, 1u8), (19, 9), (19, 255), (3, 1), (3, 255), (17, 0x39), (4, 0x31), (12, 0)] {
+                            let mut b = pool.ver[v].clone(); b[pos] = val;
+                            let frames = vec![ping.clone(), b.clone(), ping.clone()];
+                            let style = ctx.rng.next();
+                            let mut evs = random_partition(&mut ctx.rng, &frames.concat(), style);
+                            evs.push(Ev::Eof);
+                            let _ = read_case(ctx, prop, &Case { fl, compressed, verify, frames, events: evs, wscript: vec![] });
+                        }
+                    }
                     // … and of whatever else the connection did before: the handshake (request id 0 as the builder sends it, and non-zero)
                     for hs in [0u8, 1, 255] {
                         for v in [0usize, 8, 9, 10, 255] {
